@@ -4,10 +4,11 @@ sys.path.insert(0, os.path.dirname(os.path.dirname(os.path.abspath(__file__))))
 VERIF = os.path.dirname(os.path.dirname(os.path.abspath(__file__)))
 ids = [json.loads(l)['id'] for l in open(os.path.join(VERIF, 'properties.jsonl'))]
 NA = json.load(open(os.path.join(VERIF, 'harness', 'not_applicable.json')))
+READY = set(json.load(open(os.path.join(VERIF, 'harness', 'ready.json'))))
 checks, na = [], []
 for pid in ids:
     p = os.path.join(VERIF, 'harness', 'props', pid.lower() + '.py')
-    if pid in NA or not os.path.exists(p):
+    if pid in NA or not os.path.exists(p) or pid not in READY:
         na.append(dict(property_id=pid, reason=NA.get(pid, 'check not built yet (work in progress); an executable model can express it, see DESIGN.md section 5')))
         continue
     m = importlib.import_module('harness.props.' + pid.lower())
@@ -37,4 +38,14 @@ man = dict(
     notes='Entry point ./check Cxx --tier quick|thorough [--seed N] [--replay file]; known findings in /verif/known_findings.json; see DESIGN.md.',
     not_applicable=na)
 json.dump(man, open(os.path.join(VERIF, 'MANIFEST.json'), 'w'), indent=1)
+# merged, human-readable index of the per-property known-findings files (the checks read the per-property files)
+idx = dict(note='GENERATED index of /verif/known_findings/*.json by harness/mkmanifest.py; the checks read the per-property files',
+           fix_commits_in_repo=json.load(open(os.path.join(VERIF, 'harness', 'fix_commits.json'))), findings=[], fixed=[])
+for pid in ids:
+    q = os.path.join(VERIF, 'known_findings', pid + '.json')
+    if os.path.exists(q):
+        d = json.load(open(q))
+        idx['findings'] += [dict(id=f['id'], property=pid, what=f['what']) for f in d.get('findings', [])]
+        idx['fixed'] += d.get('fixed', [])
+json.dump(idx, open(os.path.join(VERIF, 'known_findings.json'), 'w'), indent=1)
 print('checks:', [c['property_id'] for c in checks], 'not_applicable:', [x['property_id'] for x in na])
